@@ -171,6 +171,19 @@ def scenarios(tier: str) -> tuple[list[C07Scenario], list[C07Scenario]]:
                     grid.append(C07Scenario(handlers=spawn, lifecycle='one_by_one', user=user + [(t0 + 1.0, 'label', 'a', 'go', 'yes')],
                                             settings=settings, holds=[(t0, t0 + de, 'echo')], horizon=t0 + 20.0, gap=gap, nf=nf, spawn=True,
                                             delays=False, early_user=False, time_dev=False))
+    # resource versions that gain a digit between the foreign write and the operator's own patch (9 -> 10, 99 -> 100): versions are opaque,
+    # "the echo" is the version the PATCH returned and nothing else
+    for rv0 in list(range(0, 10)) + list(range(86, 100)):
+        for nf, (df, de) in itertools.product((1, 2), ((0.0, 2.0), (0.5, 4.5), (2.0, 8.0))):
+            first = {1: 'ok+status1', 2: 'ok+label1'}[nf]
+            second = 'ok+status2' if nf == 2 else 'ok'
+            handlers = [dict(id='c1', on='create', script=['ok']), dict(id='c2', on='create', script=['ok']),
+                        dict(id='u1', on='update', script=[first]), dict(id='u2', on='update', script=[second]),
+                        dict(id='u3', on='update', script=['ok']), dict(id='ev', on='event', script=['ok'])]
+            t0 = 4.0
+            holds = ([(t0, t0 + df, 'all')] if df > 0 else []) + [(t0 + df, t0 + de, 'echo')]
+            grid.append(C07Scenario(handlers=handlers, lifecycle='one_by_one', user=[(1.0, 'create', 'a'), (t0, 'spec', 'a', 2)], settings=settings,
+                                    holds=holds, horizon=t0 + 20.0, gap=3.0, nf=nf, rv0=rv0, delays=False, early_user=False, time_dev=False))
     # timing search on a few representatives: late responses, timers first, user edits at explorer-chosen points
     for nf, lc in itertools.product((0, 1), ('one_by_one', 'asap')):
         first = {0: 'ok', 1: 'ok+status1'}[nf]
